@@ -90,6 +90,7 @@ type Engine struct {
 	ndOcc   map[string]int
 	clock   *Term
 	tickPreload bool
+	idShuffle   bool
 	pending []*PendingGo
 	cfgs    map[*ssa.Function]*FuncCFG
 	catchers []*Catcher
